@@ -20,7 +20,7 @@ ASSUMPTIONS = ['serial request units are drawn from 1..247 (0 is broadcast, 0 an
                'binary transactions whose frames contain delimiter bytes are excluded (KF-BINARY-FRAMER-DELIMITER-BYTES)']
 BUDGET = {'quick': 5000, 'thorough': 10000}
 CLIENTS = ['tcp', 'rtu', 'ascii', 'binary', 'tcp+rtu', 'tcp+ascii']
-PARTS = ['reply', 'reply', 'exc', 'other_tid', 'other_unit', 'other_fc', 'dup_prev', 'tid_zero', 'tid_max']
+PARTS = ['reply', 'reply', 'exc', 'other_tid', 'other_unit', 'other_fc', 'dup_prev', 'tid_zero', 'tid_max', 'other_fc_exc']
 
 
 def framing_of(client):
@@ -108,6 +108,10 @@ class ScriptPeer(transports.Peer):
             elif part == 'other_unit':
                 other = [0, (uid % 247) + 1, 255, uid - 1 if uid > 1 else 2][(self.seq + len(self.placed)) % 4]
                 fr = (other, tid, transports.reply_pdu(rpdu, self.seq + 2000))
+            elif part == 'other_fc_exc':
+                # an exception reply to ANOTHER function (same unit, same transaction id)
+                ofc = 4 if rpdu[0] != 4 else 3
+                fr = (uid, tid, bytes([ofc | 0x80, 1 + self.seq % 4]))
             elif part == 'other_fc':
                 ofc = 4 if rpdu[0] != 4 else 3
                 fr = (uid, tid, specpdu.encode('rsp:%d' % ofc, {'registers': [self.seq, 0xABCD]}))
@@ -115,7 +119,7 @@ class ScriptPeer(transports.Peer):
                 if self.prev_reply is None:
                     continue
                 fr = self.prev_reply
-            role = 'other_tid' if part in ('tid_zero', 'tid_max') else part
+            role = 'other_tid' if part in ('tid_zero', 'tid_max') else ('other_fc' if part == 'other_fc_exc' else part)
             frame = refframe.build(self.framing, fr[0], fr[2], fr[1] or 0, 0)
             self.placed.append({'uid': fr[0], 'tid': fr[1], 'pdu': fr[2], 'role': role, 'frame': frame})
             if part in ('reply', 'exc'):
